@@ -498,3 +498,103 @@ func pureExpr(v ssa.Value, depth int) string {
 	}
 	return ""
 }
+
+// mustReachPS: every feasible path from `from` (entered from block `via`, may be
+// nil) to a success exit executes `target`. Path-sensitive for boolean flags:
+// the value of a phi of constants (a `changed := false … changed = true` flag) is
+// tracked along the path and an If on such a phi follows only the feasible edge.
+func mustReachPS(f *ssa.Function, from, via *ssa.BasicBlock, target ssa.Instruction) bool {
+	exits := map[*ssa.BasicBlock]bool{}
+	for _, b := range successExitBlocks(f) {
+		exits[b] = true
+	}
+	type env map[*ssa.Phi]bool
+	sig := func(b *ssa.BasicBlock, e env) string {
+		s := fmt.Sprint(b.Index)
+		var ks []string
+		for p, v := range e {
+			ks = append(ks, fmt.Sprintf("%s=%v", p.Name(), v))
+		}
+		sort.Strings(ks)
+		return s + "|" + strings.Join(ks, ",")
+	}
+	seen := map[string]bool{}
+	ok := true
+	var visit func(b, pred *ssa.BasicBlock, e env, depth int)
+	visit = func(b, pred *ssa.BasicBlock, e env, depth int) {
+		if !ok || depth > 400 {
+			return
+		}
+		// phis of b take their value from pred
+		ne := env{}
+		for k, v := range e {
+			ne[k] = v
+		}
+		if pred != nil {
+			idx := -1
+			for i, p := range b.Preds {
+				if p == pred {
+					idx = i
+				}
+			}
+			for _, ins := range b.Instrs {
+				phi, isPhi := ins.(*ssa.Phi)
+				if !isPhi {
+					break
+				}
+				delete(ne, phi)
+				if idx < 0 || idx >= len(phi.Edges) {
+					continue
+				}
+				switch v := phi.Edges[idx].(type) {
+				case *ssa.Const:
+					if v.Value != nil && v.Value.Kind() == constant.Bool {
+						ne[phi] = constant.BoolVal(v.Value)
+					}
+				case *ssa.Phi:
+					if bv, known := e[v]; known {
+						ne[phi] = bv
+					}
+				}
+			}
+		}
+		k := sig(b, ne)
+		if seen[k] {
+			return
+		}
+		seen[k] = true
+		for _, ins := range b.Instrs {
+			if ins == target {
+				return // this path passes the target
+			}
+		}
+		if exits[b] {
+			ok = false
+			return
+		}
+		if ifi, isIf := b.Instrs[len(b.Instrs)-1].(*ssa.If); isIf && len(b.Succs) == 2 {
+			cond, neg := ifi.Cond, false
+			if u, isU := cond.(*ssa.UnOp); isU && u.Op == token.NOT {
+				cond, neg = u.X, true
+			}
+			if phi, isPhi := cond.(*ssa.Phi); isPhi {
+				if bv, known := ne[phi]; known {
+					if neg {
+						bv = !bv
+					}
+					if bv {
+						visit(b.Succs[0], b, ne, depth+1)
+					} else {
+						visit(b.Succs[1], b, ne, depth+1)
+					}
+					return
+				}
+			}
+		}
+		for _, s := range b.Succs {
+			visit(s, b, ne, depth+1)
+		}
+	}
+	visit(from, via, env{}, 0)
+	return ok
+}
